@@ -363,6 +363,22 @@ theorem pool_copy (tables : Array (List Rat × List Rat)) (pool : Pool) (i j : N
     simp [Array.getD, h, hne]
   · simp [Array.getD, h]
 
+
+/-- **a newly constructed object answers from its own table whatever lived in its storage before**: rebuilding slot `s` (the old
+    object evaluates, is destroyed or overwritten, a new object of table `t` is constructed in the same storage and asked
+    `Interpolate(xnew)` first) gives exactly what constructing table `t` in that slot and asking gives — the old object and its
+    last call do not enter -/
+theorem pool_rebuild (tables : Array (List Rat × List Rat)) (pool : Pool) (s t : Nat) (xold xnew : Rat) (o : Obj) (r : Rat × Obj)
+    (hs : pool.getD s none = some o) (hold : o.interpolate xold = .ok r) :
+    poolStep tables pool (.rebuild s t xold xnew) =
+      match poolStep tables pool (.make s t) with
+      | .ok (_, pool') => poolStep tables pool' (.call s (.interp xnew))
+      | .error e => .error e := by
+  simp only [poolStep, hs, hold]
+  cases poolMake tables pool s t with
+  | error e => rfl
+  | ok p => rfl
+
 /-! ## Non-vacuity -/
 
 /-- the zig-zag table of the fix commit's message meets the hypotheses of every theorem above -/
